@@ -8,10 +8,14 @@
   change nothing else; `দেখাও` then appends a newline and `_দেখাও` nothing; printing nil or a
   function is an error that writes nothing; the statements that are not print statements and
   evaluate no expression (`{`, `}`, `লুপ`, `আবার`, `থামাও`, `অথবা`, `ফাং`) leave the output untouched.
-  (Expression evaluation writes only through the print statements of called functions; that the
-  whole program's output is the in-order concatenation is the control refinement of C02–C05.)
+  Whole runs: `output_only_grows` — from ANY state, any statement / expression / function body / run, with any
+  collection schedule: the output of the resulting state — or, when the run stops with an error, the
+  output carried by that error — is the output at the start followed by more text; nothing printed is
+  ever lost or reordered, and an error keeps everything printed before it (the C13 clause).  The
+  in-order composition over statements is `C19.seq_meaning` + the control refinement of C02–C05.
 -/
 import Pakhi.Lemmas.Render
+import Pakhi.Lemmas.OutMono
 
 namespace Pakhi
 namespace C18
@@ -107,6 +111,34 @@ theorem structural_statements_write_nothing (prog : List Stmt) (f : Nat) (rest c
     · obtain ⟨c, _, hc⟩ := Res.bind_eq_ok h
       simp at hc; rw [← hc.2]
     · simp at h; rw [← h.2]
+
+/-- **the output only grows**, for one statement from any state … -/
+theorem output_only_grows_step (prog : List Stmt) (f : Nat) (cur : List Stmt) (s : St) :
+    (∀ cur' s', exec prog f cur s = .ok (cur', s') → ∃ t, outText s'.out = outText s.out ++ t) ∧
+    (∀ e, exec prog f cur s = .err e → ∃ t, outText e.out = outText s.out ++ t) := by
+  have h := (outInv prog f).exec cur s
+  constructor
+  · intro cur' s' hx; rw [hx] at h; exact h
+  · intro e hx; rw [hx] at h; exact h
+
+/-- … for an expression (with all the calls it makes) … -/
+theorem output_only_grows_eval (prog : List Stmt) (f : Nat) (cur : List Stmt) (e : Expr) (s : St) :
+    (∀ v s', eval prog f cur e s = .ok (v, s') → ∃ t, outText s'.out = outText s.out ++ t) ∧
+    (∀ er, eval prog f cur e s = .err er → ∃ t, outText er.out = outText s.out ++ t) := by
+  have h := (outInv prog f).eval cur e s
+  constructor
+  · intro v s' hx; rw [hx] at h; exact h
+  · intro er hx; rw [hx] at h; exact h
+
+/-- … and for whole runs under any collection schedule: the final output, or the output reported with the error that
+    stopped the run, extends the output at the start -/
+theorem output_only_grows (prog : List Stmt) (g : GcMode) (f k : Nat) (cur : List Stmt) (s : St) :
+    (∀ s', runLoop prog g f k cur s = .ok s' → ∃ t, outText s'.out = outText s.out ++ t) ∧
+    (∀ e, runLoop prog g f k cur s = .err e → ∃ t, outText e.out = outText s.out ++ t) := by
+  have h := runLoop_out prog g f k cur s
+  constructor
+  · intro s' hx; rw [hx] at h; exact h
+  · intro e hx; rw [hx] at h; exact h
 
 end C18
 end Pakhi
